@@ -115,7 +115,9 @@ class Grammar(Generic[_NodeT]):
             if module_node is not None:
                 return module_node  # type: ignore[no-any-return]
 
+        read_time = None
         if code is None:
+            read_time = file_io.get_last_modified()
             code = file_io.read()
         code = python_bytes_to_unicode(code)
 
@@ -143,7 +145,7 @@ class Grammar(Generic[_NodeT]):
                 try_to_save_module(self._hashed, file_io, new_node, lines,
                                    # Never pickle in pypy, it's slow as hell.
                                    pickling=cache and not is_pypy,
-                                   cache_path=cache_path)
+                                   cache_path=cache_path, read_time=read_time)
                 return new_node  # type: ignore[no-any-return]
 
         tokens = self._tokenizer(lines)
@@ -159,7 +161,7 @@ class Grammar(Generic[_NodeT]):
             try_to_save_module(self._hashed, file_io, root_node, lines,
                                # Never pickle in pypy, it's slow as hell.
                                pickling=cache and not is_pypy,
-                               cache_path=cache_path)
+                               cache_path=cache_path, read_time=read_time)
         return root_node  # type: ignore[no-any-return]
 
     def _get_token_namespace(self):
